@@ -203,6 +203,7 @@ func runNonBlocking(c *fw.Case, name string, cd codec.Codec, stream []byte, cuts
 			cur += L
 		}
 	}
+	c.Sample(2, map[string]any{"extractor": "Decode", "codec": name, "stream": hx(stream), "chunk_ends": bounds, "frames_returned": len(got), "schedule": sched})
 	c.Cover(fmt.Sprintf("nonblocking/%s/%s/frames%d", name, sched, len(got)))
 }
 
@@ -260,6 +261,7 @@ func runBlocking(c *fw.Case, name string, cd codec.Codec, stream []byte, frameEn
 			if faultAt != cur {
 				kind = "midframe"
 			}
+			c.Sample(2, map[string]any{"extractor": "DecodeBlocked", "codec": name, "stream": hx(stream), "chunk_ends": cuts, "fault_at": faultAt, "fault": fmt.Sprint(fault), "frames_returned_before_error": nframes, "error": fmt.Sprint(err)})
 			c.Cover(fmt.Sprintf("blocking/%s/%s/%s/%T", name, sched, kind, fault))
 			return
 		}
